@@ -1319,6 +1319,135 @@ def translate_cif(report):
     return "-- GENERATED by translate/pysrc.py from src/diffpy/structure/parsers/p_cif.py — do not edit\nnamespace DS.Src.Cif\n\n" + "".join(out) + "end DS.Src.Cif\n"
 
 
+
+def translate_expansion(report):
+    """`supercell`: index list, image coordinates, new cell lengths, guards and loop skeleton"""
+    path = os.path.join(REPO, "src", "diffpy", "structure", "expansion", "supercell_mod.py")
+    text = open(path, encoding="utf-8").read()
+    tree = ast.parse(text)
+    info = {"methods": {}, "untranslatable": {}}
+    out = []
+    try:
+        fn = find_func(tree.body, "supercell")
+        if fn is None or [a.arg for a in fn.args.args] != ["S", "mno"]:
+            raise Untranslatable("supercell(S, mno) not found")
+        body = [b for b in fn.body if not (isinstance(b, ast.Expr) and isinstance(b.value, ast.Constant) and isinstance(b.value.value, str))]
+        guards, rest = [], []
+        for b in body:
+            if isinstance(b, ast.If) and all(isinstance(x, (ast.Raise, ast.Assign)) for x in ast.walk(b) if isinstance(x, ast.stmt) and x is not b and not isinstance(x, ast.If)):
+                cur = b
+                while True:
+                    r = [x for x in cur.body if isinstance(x, ast.Raise)]
+                    if not r:
+                        raise Untranslatable("guard without raise: %s" % ast.unparse(cur.test))
+                    exc = r[0].exc.func.id if isinstance(r[0].exc, ast.Call) and isinstance(r[0].exc.func, ast.Name) else "?"
+                    guards.append("%s -> %s" % (ast.unparse(cur.test), exc))
+                    if len(cur.orelse) == 1 and isinstance(cur.orelse[0], ast.If):
+                        cur = cur.orelse[0]
+                    elif not cur.orelse:
+                        break
+                    else:
+                        raise Untranslatable("else branch of a guard")
+            else:
+                rest.append(b)
+        # expected skeleton after the guards
+        def is_assign(b, name):
+            return isinstance(b, ast.Assign) and len(b.targets) == 1 and isinstance(b.targets[0], ast.Name) and b.targets[0].id == name
+
+        names = [b.targets[0].id if isinstance(b, ast.Assign) and isinstance(b.targets[0], ast.Name) else type(b).__name__ for b in rest]
+        want = ["mno", "newS", "If", "ijklist", "mnofloats", "newAtoms", "For", "Expr", "Expr", "Return"]
+        if names != want:
+            raise Untranslatable("supercell: statement skeleton %r" % names)
+        b_mno, b_new, b_short, b_ijk, b_mnof, b_atoms, b_for, b_set, b_lat, b_ret = rest
+        facts = {
+            "mno": ast.unparse(b_mno.value), "newS": ast.unparse(b_new.value),
+            "shortcut": "%s -> %s" % (ast.unparse(b_short.test), "; ".join(ast.unparse(x) for x in b_short.body)),
+            "mnofloats": ast.unparse(b_mnof.value), "newAtoms": ast.unparse(b_atoms.value),
+            "store": ast.unparse(b_set.value), "return": ast.unparse(b_ret.value) if b_ret.value else "",
+        }
+        if b_short.orelse:
+            raise Untranslatable("supercell: shortcut with an else branch")
+        # ijklist comprehension: [(i, j, k) for i in range(mno[0]) for j in range(mno[1]) for k in range(mno[2])]
+        comp = b_ijk.value
+        if not (isinstance(comp, ast.ListComp) and len(comp.generators) == 3 and isinstance(comp.elt, ast.Tuple) and len(comp.elt.elts) == 3):
+            raise Untranslatable("ijklist: %s" % ast.unparse(comp))
+        dims = {"mno[0]": "l", "mno[1]": "m", "mno[2]": "n"}
+        gens = []
+        for g in comp.generators:
+            if g.ifs or g.is_async or not isinstance(g.target, ast.Name) or not (isinstance(g.iter, ast.Call) and ast.unparse(g.iter.func) == "range" and len(g.iter.args) == 1):
+                raise Untranslatable("ijklist generator: %s" % ast.unparse(g.iter))
+            d = dims.get(ast.unparse(g.iter.args[0]))
+            if d is None:
+                raise Untranslatable("ijklist range: %s" % ast.unparse(g.iter))
+            gens.append((g.target.id, d))
+        elt = [e.id if isinstance(e, ast.Name) else None for e in comp.elt.elts]
+        if None in elt or set(elt) != {v for v, _ in gens}:
+            raise Untranslatable("ijklist element: %s" % ast.unparse(comp.elt))
+        v0, v1, v2 = gens
+        out.append("/-- `ijklist` of `supercell` -/\ndef ijkList (l m n : Nat) : List (Nat × Nat × Nat) :=\n"
+                   "  (List.range %s).flatMap fun %s => (List.range %s).flatMap fun %s => (List.range %s).map fun %s => (%s, %s, %s)\n\n" % (
+                       v0[1], v0[0], v1[1], v1[0], v2[1], v2[0], elt[0], elt[1], elt[2]))
+        # the loops: for a in S: for ijk in ijklist: adup = Atom(a); adup.xyz = (a.xyz + ijk) / mnofloats; newAtoms.append(adup)
+        if not (isinstance(b_for.iter, ast.Name) and b_for.iter.id == "S" and isinstance(b_for.target, ast.Name) and len(b_for.body) == 1
+                and isinstance(b_for.body[0], ast.For) and ast.unparse(b_for.body[0].iter) == "ijklist" and not b_for.orelse):
+            raise Untranslatable("supercell: loops %s" % ast.unparse(b_for)[:80])
+        a_name = b_for.target.id
+        inner = b_for.body[0]
+        t_name = inner.target.id if isinstance(inner.target, ast.Name) else None
+        ib = inner.body
+        if not (t_name and len(ib) == 3 and is_assign(ib[0], ib[0].targets[0].id if isinstance(ib[0], ast.Assign) else "") ):
+            raise Untranslatable("supercell: inner loop body")
+        dup = ib[0].targets[0].id
+        facts["dup"] = ast.unparse(ib[0].value)
+        facts["append"] = ast.unparse(ib[2])
+        if not (isinstance(ib[1], ast.Assign) and ast.unparse(ib[1].targets[0]) == "%s.xyz" % dup):
+            raise Untranslatable("supercell: image coordinates are not assigned to %s.xyz" % dup)
+        # image coordinates, component-wise: (a.xyz + ijk) / mnofloats
+        e = ib[1].value
+
+        def comp_expr(node, k):
+            if isinstance(node, ast.BinOp) and type(node.op) in (ast.Add, ast.Sub, ast.Mult, ast.Div):
+                o = {ast.Add: "+", ast.Sub: "-", ast.Mult: "*", ast.Div: "/"}[type(node.op)]
+                return "(%s %s %s)" % (comp_expr(node.left, k), o, comp_expr(node.right, k))
+            src = ast.unparse(node)
+            if src == "%s.xyz" % a_name:
+                return "a.xyz." + "xyz"[k]
+            if src == t_name:
+                return "(t.%s : α)" % ("1", "2.1", "2.2")[k]
+            if src == "mnofloats" and facts["mnofloats"] == "numpy.array(mno, dtype=float)":
+                return "(%s : α)" % "lmn"[k]
+            raise Untranslatable("image coordinates: `%s`" % src)
+
+        out.append("/-- `adup.xyz` of the image `t` of atom `a` -/\ndef imageXyz (l m n : Nat) (a : Expand.Atom α β) (t : Nat × Nat × Nat) : Vec3 α :=\n  ⟨%s, %s, %s⟩\n\n" % (
+            comp_expr(e, 0), comp_expr(e, 1), comp_expr(e, 2)))
+        # new cell: setLatPar(a=mno[0] * S.lattice.a, ...)
+        call = b_lat.value
+        if not (isinstance(call, ast.Call) and ast.unparse(call.func) == "newS.lattice.setLatPar" and not call.args):
+            raise Untranslatable("supercell: cell update `%s`" % ast.unparse(call)[:80])
+        kws = {}
+        for k in call.keywords:
+            v = k.value
+            if not (isinstance(v, ast.BinOp) and isinstance(v.op, ast.Mult) and ast.unparse(v.left) in dims and ast.unparse(v.right) == "S.lattice.%s" % k.arg):
+                raise Untranslatable("supercell: cell parameter %s=%s" % (k.arg, ast.unparse(v)))
+            kws[k.arg] = "(%s : α) * L.%s" % (dims[ast.unparse(v.left)], k.arg)
+        if sorted(kws) != ["a", "b", "c"]:
+            raise Untranslatable("supercell: cell update changes %r" % sorted(kws))
+        out.append("/-- the cell after `newS.lattice.setLatPar(a=…, b=…, c=…)`: angles and `baserot` are kept -/\n"
+                   "def scaleCell (L : Expand.Cell α) (l m n : Nat) : Expand.Cell α :=\n  { L with a := %s, b := %s, c := %s }\n\n" % (kws["a"], kws["b"], kws["c"]))
+        out.append("def supercell_guards : List String := [%s]\n\n" % ", ".join(lean_str(g) for g in guards))
+        out.append("/-- the statements around the loops, as written -/\ndef supercell_facts : List (String × String) := [%s]\n\n" % ", ".join(
+            "(%s, %s)" % (lean_str(k), lean_str(v)) for k, v in sorted(facts.items())))
+        info["methods"]["supercell"] = True
+    except Untranslatable as e:
+        info["untranslatable"]["supercell"] = str(e)
+        out.append("def supercell_untranslatable : String := %s\n\n" % lean_str(str(e)))
+    report["expansion"] = info
+    hdr = ("-- GENERATED by translate/pysrc.py from src/diffpy/structure/expansion/supercell_mod.py — do not edit\n"
+           "import DS.Model.Expand\nnamespace DS.Src.Expand\nset_option linter.unusedVariables false\nopen DS\n"
+           "section\nvariable {α β : Type} [Add α] [Mul α] [Div α] [Sub α] [NatCast α]\n\n")
+    return hdr + "".join(out) + "end\nend DS.Src.Expand\n"
+
+
 def write_if_changed(path, text):
     try:
         if open(path, encoding="utf-8").read() == text:
@@ -1331,7 +1460,7 @@ def write_if_changed(path, text):
     return True
 
 
-def main(outdir=OUTDIR, report_path=None, groups=("lattice", "atom", "structure", "cif")):
+def main(outdir=OUTDIR, report_path=None, groups=("lattice", "atom", "structure", "cif", "expansion")):
     report = {}
     if "lattice" in groups:
         write_if_changed(os.path.join(outdir, "SrcLattice.lean"), translate_lattice(report))
@@ -1341,6 +1470,8 @@ def main(outdir=OUTDIR, report_path=None, groups=("lattice", "atom", "structure"
         write_if_changed(os.path.join(outdir, "SrcStructure.lean"), translate_structure(report))
     if "cif" in groups:
         write_if_changed(os.path.join(outdir, "SrcCif.lean"), translate_cif(report))
+    if "expansion" in groups:
+        write_if_changed(os.path.join(outdir, "SrcExpand.lean"), translate_expansion(report))
     if report_path:
         with open(report_path, "w") as f:
             json.dump(report, f, indent=1)
